@@ -117,6 +117,8 @@ def specFlush (rb : RB) (old : GridTerm) (lines cols : Nat) (impl : String) : St
     -- the hypothesis of `flush_spec` minus the CHAR-width clause is C03's invariant: it must hold of every buffer a
     -- drawing program produces (tested here on every flush; proved in C03)
     if !flushWFPb (fun _ => true) rb then "the buffer is not well-formed (FlushWFP fails): C03 invariant broken?"
+    -- the specification asks nothing of a terminal narrower than the buffer (hypothesis `rb.cols ≤ t.cols` of flush_spec)
+    else if rb.cols > old.cols then ""
     else if field ts "r" != some "ok" then "flush did not complete"
     else match (field ts "grid").bind parseGrid with
       | none => "unparsable grid"
@@ -127,15 +129,99 @@ def specFlush (rb : RB) (old : GridTerm) (lines cols : Nat) (impl : String) : St
         else ""
   | _ => "malformed observation"
 
+/-! ### The mock-terminal configuration -/
+
+def sentinel (seed : Nat) (l c : Nat) : UInt8 := UInt8.ofNat (0x21 + (seed + 7 * l + 3 * c) % 94)
+
+def showMStr : Option (List UInt8) → String
+  | none => "-"
+  | some bs => bytesHex bs
+
+def showMCell (c : MCell) : String := showMStr c.str ++ showPen c.pen
+
+def showMReq (t : MockTerm) : Req → String
+  | .goto l c => s!"g{MockTerm.bound l 0 (t.lines - 1)},{MockTerm.bound c 0 (t.cols - 1)}"
+  | .setpen p => "p" ++ showPen (termSetpen t.pen p)
+  | .print s start len => "t" ++ bytesHex (((s.drop start).take len).takeWhile (· ≠ 0))
+  | .erasech n m => s!"e{n},{m.toInt}"
+
+def showMLog (t : MockTerm) : List Req → List String
+  | [] => []
+  | r :: rs => showMReq t r :: showMLog (t.step r) rs
+
+def showMock (t : MockTerm) (log : List String) : String :=
+  "log=" ++ (if log.isEmpty then "-" else ";".intercalate log) ++ s!" cur={t.line},{t.col} pen=" ++ showPen t.pen ++
+  " grid=" ++ "/".intercalate ((List.range t.lines.toNat).map fun (l : Nat) =>
+    "|".intercalate ((List.range t.cols.toNat).map fun (c : Nat) => showMCell (t.cells (l : Int) (c : Int))))
+
+def parseMCell (s : String) : Option MCell :=
+  match s.splitOn "{" with
+  | [g, rest] =>
+    match rest.splitOn "}" with
+    | [p, ""] => do
+      let str ← (if g = "-" then some none else (hexBytes? g).map some)
+      let p ← parsePenBody p
+      pure { str := str, pen := p }
+    | _ => none
+  | _ => none
+
+def parseMGrid (s : String) : Option (Array (Array MCell)) :=
+  ((s.splitOn "/").mapM fun (row : String) => ((row.splitOn "|").mapM parseMCell).map List.toArray).map List.toArray
+
+/-- The mock terminal a `termm` operation sets up: pen, sentinel rows printed through the API, cursor. -/
+def newMock (tl tc : Nat) (pen : Option Pen) (seed : Nat) : MockTerm :=
+  let t := MockTerm.new tl tc
+  let t := match pen with
+    | none => t
+    | some p => t.setpen p
+  let t := (List.range tl).foldl (fun (t : MockTerm) (l : Nat) =>
+    ((t.goto l 0).print ((List.range tc).map fun c => sentinel seed l c)).compact) t
+  t.goto ((seed % tl : Nat) : Int) (((seed / 7) % tc : Nat) : Int)
+
+/-- `overlay` evaluated on what the mock terminal displays (no write counts there). -/
+def checkMGrid (rb : RB) (old : MockTerm) (new : Array (Array MCell)) : String :=
+  let cellsList := (List.range old.lines.toNat).flatMap fun l => (List.range old.cols.toNat).map fun c => (l, c)
+  let bad := cellsList.findSome? fun (l, c) =>
+    match new[l]? with
+    | none => some s!"row {l} missing"
+    | some row =>
+      match row[c]? with
+      | none => some s!"cell ({l},{c}) missing"
+      | some x =>
+        let w := want rb (l : Int) (c : Int)
+        let o := old.cells (l : Int) (c : Int)
+        if mcellOK w o x then none
+        else some s!"cell ({l},{c}): want {showWant w} over {showMCell o}, mock terminal shows {showMCell x}"
+  bad.getD ""
+
+def specMFlush (rb : RB) (old : MockTerm) (impl : String) : String :=
+  match impl.splitOn " rb=" with
+  | [head, dump] =>
+    let ts := toks head
+    if !flushWFPb (fun _ => true) rb then "the buffer is not well-formed (FlushWFP fails): C03 invariant broken?"
+    -- the mock terminal clamps positions to its screen: nothing is asked when the buffer does not fit
+    else if rb.cols > old.cols ∨ rb.lines > old.lines then ""
+    else if field ts "r" != some "ok" then "flush did not complete"
+    else match (field ts "grid").bind parseMGrid with
+      | none => "unparsable grid"
+      | some g =>
+        let v := checkMGrid rb old g
+        if v != "" then v
+        else if dump != showRB (resetExpected rb) then "buffer not reset after flush"
+        else ""
+  | _ => if impl.startsWith "CRASH" then "the mock terminal crashed: " ++ impl else "malformed observation"
+
 /-! ### One step -/
 
 structure St where
   rb : Option RB := none
   term : Option GridTerm := none
+  mterm : Option MockTerm := none
   tl : Nat := 0
   tc : Nat := 0
+  /-- the harness process of this history is dead (a sanitizer abort): every further operation answers `CRASH` -/
+  crashed : Bool := false
 
-def sentinel (seed : Nat) (l c : Nat) : UInt8 := UInt8.ofNat (0x21 + (seed + 7 * l + 3 * c) % 94)
 
 /-- The grid a `term` operation sets up. -/
 def newTerm (tl tc : Nat) (oracle : Nat) (ws : Bool) (pen : Option Pen) (seed : Nat) : GridTerm :=
@@ -145,6 +231,7 @@ def newTerm (tl tc : Nat) (oracle : Nat) (ws : Bool) (pen : Option Pen) (seed : 
   { cells := fun l c => { glyph := .chars [sentinel seed l.toNat c.toNat], pen := p, writes := 0 }
     line := (seed % (if tl = 0 then 1 else tl) : Nat)
     col := ((seed / 7) % (if tc = 0 then 1 else tc) : Nat)
+    cols := tc
     pen := p
     oracle := fun k => (oracle >>> (k % 31)) % 2 == 1
     viaWriteStr := ws }
@@ -179,12 +266,13 @@ def showOutcome : Outcome → String
   | .ok => "ok" | .aborted => "ABORT" | .fuelOut => "OUT-OF-FUEL"
 
 def step (st : St) (ts : List String) (impl : String) : St × String × String :=
+  if st.crashed ∧ ts.head? != some "new" then (st, "CRASH exit=1", "") else
   match ts with
   | ["new", l, c] =>
     match int? l, int? c with
     | some l, some c =>
       let rb := (RB.new l c garbage garbage).compact
-      ({ st with rb := some rb }, "r=- " ++ showRB rb, "")
+      ({ st with rb := some rb, crashed := false, term := none, mterm := none }, "r=- " ++ showRB rb, "")
     | _, _ => (st, "bad-op", "")
   | ["term", tl, tc, oracle, ws, pen, seed] =>
     match tl.toNat?, tc.toNat?, oracle.toNat?, ws.toNat?, seed.toNat? with
@@ -194,9 +282,31 @@ def step (st : St) (ts : List String) (impl : String) : St × String × String :
       | none => (st, "bad-op", "")
       | some pen =>
         let t := (newTerm tl tc oracle (ws != 0) pen seed).compact tl tc
-        ({ st with term := some t, tl := tl, tc := tc }, "r=- " ++ showTerm t tl tc, "")
+        ({ st with term := some t, mterm := none, tl := tl, tc := tc }, "r=- " ++ showTerm t tl tc, "")
     | _, _, _, _, _ => (st, "bad-op", "")
+  | ["termm", tl, tc, pen, seed] =>
+    match tl.toNat?, tc.toNat?, seed.toNat? with
+    | some tl, some tc, some seed =>
+      let pen? : Option (Option Pen) := if pen = "NONE" then some none else (parsePenBody pen).map some
+      match pen? with
+      | none => (st, "bad-op", "")
+      | some pen =>
+        if tl = 0 ∨ tc = 0 then (st, "bad-op", "") else
+        let t := (newMock tl tc pen seed).compact
+        ({ st with mterm := some t, term := none, tl := tl, tc := tc }, "r=- " ++ showMock t [], "")
+    | _, _, _ => (st, "bad-op", "")
   | ["flush"] =>
+    match st.rb, st.mterm with
+    | some rb, some t =>
+      let res := flushToTerm rb
+      let t' := (t.run res.reqs).compact
+      let rb' := res.rb.compact
+      if t'.crashed ∨ t'.hung then
+        ({ st with crashed := true }, "CRASH exit=1", specMFlush rb t impl)
+      else
+        let m := "r=" ++ showOutcome res.out ++ " " ++ showMock t' (showMLog t res.reqs) ++ " rb=" ++ showRB rb'
+        ({ st with rb := some rb', mterm := some t' }, m, specMFlush rb t impl)
+    | _, _ =>
     match st.rb, st.term with
     | some rb, some t =>
       let res := flushToTerm rb
